@@ -2471,7 +2471,8 @@ def open_jsonl(
       path,
       mode,
       serializer=to_json_str,
-      deserializer=from_json_str,
+      # As `pg.load` does: a partial object that was added can be read back.
+      deserializer=functools.partial(from_json_str, allow_partial=True),
       **kwargs
   )
 
